@@ -85,7 +85,7 @@ def run_shard(shard, tier):
         check_case(schema, doc, op, text, values, None, True, res, viol)
         names = c02.fields_in(text)
         for f in faults_all:
-            if f[1] in names and f[2] in ("null", "raise", "badtype", "wrongleaf"):
+            if f[1] in names and f[2] in ("null", "raise", "badtype", "wrongleaf", "unserializable"):
                 check_case(schema, doc, op, text, values, f, False, res, viol)
         if len(res.samples) < 1 and c.deviations == k and "$" in text:
             res.sample({"schema": sname, "accepted_document": text, "variables": {k2: repr(v) for k2, v in values.items()}})
